@@ -333,6 +333,31 @@ def by_keyword(func, args, observe=None):
     return None
 
 
+def harvest_strings(module, max_len=40):
+    """String literals in a module's source (docstrings excluded): separators, markers and
+    sentinels the code itself uses.  A marker that may not occur in the data is, for the code
+    that relies on it, the one input worth trying."""
+    import ast                              # pylint: disable=import-outside-toplevel
+    import inspect                          # pylint: disable=import-outside-toplevel
+    try:
+        tree = ast.parse(inspect.getsource(module))
+    except (OSError, TypeError, SyntaxError):
+        return []
+    docs = set()
+    for node in ast.walk(tree):
+        if isinstance(node, (ast.FunctionDef, ast.ClassDef, ast.Module, ast.AsyncFunctionDef)):
+            body = getattr(node, "body", [])
+            if body and isinstance(body[0], ast.Expr) and isinstance(body[0].value, ast.Constant) \
+                    and isinstance(body[0].value.value, str):
+                docs.add(id(body[0].value))
+    found = []
+    for node in ast.walk(tree):
+        if isinstance(node, ast.Constant) and isinstance(node.value, str) and id(node) not in docs \
+                and 0 < len(node.value) <= max_len and node.value not in found:
+            found.append(node.value)
+    return found
+
+
 def harvest_ratios(module):
     """Float literals strictly between 0 and 1 in a module's source: shares and fill factors (a
     node "95 % full", a quadrant holding "all but 0.5 %").  A count-based rule built on a share r
